@@ -211,7 +211,14 @@ func checkC16(r *Run) {
 				cands = append(cands, append([]byte(a), base...), append(append([]byte(nil), base...), a...))
 			}
 			for _, n := range cands {
-				for _, sep := range []string{":", " :", "\t:", " \t :", "\r\n :"} {
+				seps := []string{":", " :", "\t:", " \t :", "\r\n :"}
+				if len(n) == len(base) {
+					// runs of 2..80 SP / HT / alternating before the colon (HCOLON allows any amount)
+					for k := 2; k <= 80; k++ {
+						seps = append(seps, strings.Repeat(" ", k)+":", strings.Repeat("\t", k)+":", strings.Repeat(" \t", k)[:k]+":")
+					}
+				}
+				for _, sep := range seps {
 					line := append(append(append([]byte(nil), n...), sep...), " v\r\nX"...)
 					var h sipsp.Hdr
 					_, e := sipsp.ParseHdrLine(line, 0, &h, nil)
